@@ -48,8 +48,19 @@ Do(mm, o) ==
       [] o.op = "unversion_file"    -> [mm EXCEPT !.remid = @ \cup {o.t}]
       [] o.op = "set_executability" -> [mm EXCEPT !.exec[o.t] = o.v]
 
+\* NAMED DEVIATION (git flavour): GitTreeTransform._generate_index_changes drops the index entry of every trans-id that is
+\* unversioned, deleted or moved, and (re-)adds only trans-ids whose path, contents or executability the transform
+\* touched.  So an untouched file below a MOVED directory keeps its old index key (unversioned at its new path), and
+\* unversion_file + version_file of an otherwise untouched file leaves it unversioned.
+GitTouched(mm, t) == Moved(mm, t) \/ mm.contents[t] # NONE \/ mm.exec[t] # NONE
+GitVer(mm, t)  == IF GitTouched(mm, t) THEN FinalVer(mm, t)
+                  ELSE IF t \in mm.remid \cup mm.removed THEN FALSE
+                  ELSE InTree(t) /\ Tree[t].ver /\ PathOf(mm, t) = TreePath(t)
+GitFinalTree(mm) == {[e EXCEPT !.ver = IF e.kind = "directory" THEN e.ver ELSE \E t \in Live(mm) : e.t = t /\ GitVer(mm, t)]
+                     : e \in FinalTree(mm)}
 Describe(mm) == LET kb == ConflictKinds(mm, "bzr")  kg == kb \ {"unversioned parent"} IN
-                [kinds |-> [bzr |-> kb, git |-> kg], final |-> IF kg = {} THEN FinalTree(mm) ELSE {}]
+                [kinds |-> [bzr |-> kb, git |-> kg],
+                 final |-> [bzr |-> IF kb = {} THEN FinalTree(mm) ELSE {}, git |-> IF kg = {} THEN GitFinalTree(mm) ELSE {}]]
 
 TypeRank == IF Order = "A"
             THEN [create_file |-> 1, create_directory |-> 2, delete_contents |-> 3, adjust_path |-> 4, unversion_file |-> 5,
@@ -88,19 +99,21 @@ LawCleanOrMalformed(r) == r.resolve \in {"none", "clean", "malformed", "timeout"
 LawAppliesCleanly(r)   == Usable(r) => r.apply = "ok"
 LawAtomic(r)           == r.apply # "ok" => r.unchanged                            \* never a partially applied tree
 LawPreviewReadable(r)  == Usable(r) => r.preview = "ok"
-LawPreviewEqApplied(r) == (r.preview = "ok" /\ r.apply = "ok") => r.preview_tree = r.applied_tree
+\* git has no versioned directories (a tree reports the directories its versioned files imply): files are compared
+NoDirs(fl, s)          == IF fl = "git" THEN {e \in s : e.kind # "directory"} ELSE s
+LawPreviewEqApplied(fl, r) == (r.preview = "ok" /\ r.apply = "ok") => NoDirs(fl, r.preview_tree) = NoDirs(fl, r.applied_tree)
 PLawNames == <<"builds", "terminates", "clean_or_malformed", "applies_cleanly", "atomic", "preview_readable", "preview_eq_applied">>
-PLaw(n, r) == CASE n = "builds" -> LawBuilds(r) [] n = "terminates" -> LawTerminates(r)
+PLaw(n, fl, r) == CASE n = "builds" -> LawBuilds(r) [] n = "terminates" -> LawTerminates(r)
                 [] n = "clean_or_malformed" -> LawCleanOrMalformed(r) [] n = "applies_cleanly" -> LawAppliesCleanly(r)
                 [] n = "atomic" -> LawAtomic(r) [] n = "preview_readable" -> LawPreviewReadable(r)
-                [] n = "preview_eq_applied" -> LawPreviewEqApplied(r)
-PFailed(r) == {n \in Rng(PLawNames) : ~PLaw(n, r)}
+                [] n = "preview_eq_applied" -> LawPreviewEqApplied(fl, r)
+PFailed(fl, r) == {n \in Rng(PLawNames) : ~PLaw(n, fl, r)}
 \* conformance with the model (sp = Describe(maps), fl = flavour): same conflict families; a conflict-free transform
 \* yields the declared tree; a family without a resolver is never "resolved"
 GitDirs(fl, s) == IF fl = "git" THEN {[e EXCEPT !.ver = IF e.kind = "directory" THEN FALSE ELSE e.ver] : e \in s} ELSE s
 PDrift(sp, fl, r) == IF r.build # "ok" THEN {} ELSE
          (IF r.raw # sp.kinds[fl] THEN {"kinds"} ELSE {})
-    \cup (IF sp.kinds[fl] = {} /\ r.apply = "ok" /\ GitDirs(fl, r.applied_full) # GitDirs(fl, sp.final) THEN {"final"} ELSE {})
+    \cup (IF sp.kinds[fl] = {} /\ r.apply = "ok" /\ GitDirs(fl, r.applied_full) # GitDirs(fl, sp.final[fl]) THEN {"final"} ELSE {})
     \cup (IF sp.kinds[fl] \cap Unresolvable # {} /\ r.resolve = "clean" THEN {"unresolvable-resolved"} ELSE {})
 
 (* ---- design checks on the declarative meaning *)
@@ -110,12 +123,12 @@ ParentPath(p) == SubSeq(p, 1, Len(p) - 1)
 WellFormed(ft) == /\ \A e1, e2 \in ft : e1.path = e2.path => e1 = e2
                   /\ \A e \in ft : Len(e.path) = 1 \/ \E q \in ft : q.path = ParentPath(e.path) /\ q.kind = "directory"
 CleanIsWellFormed == out.kinds.git = {} => /\ \A t \in Live(m) : Rooted(m, t)
-                                           /\ WellFormed(out.final)
-                                           /\ Cardinality(out.final) = Cardinality(Live(m))
+                                           /\ WellFormed(FinalTree(m))
+                                           /\ Cardinality(out.final.git) = Cardinality(Live(m))
 CleanBzrVersionedParents == out.kinds.bzr = {} =>
-    \A e \in out.final : (e.ver /\ Len(e.path) > 1) => \E q \in out.final : q.path = ParentPath(e.path) /\ q.ver
+    \A e \in out.final.bzr : (e.ver /\ Len(e.path) > 1) => \E q \in out.final.bzr : q.path = ParentPath(e.path) /\ q.ver
 HistReplays == m = FoldLeft(Do, M0, hist) /\ Len(hist) = Size(m)
 \* anti-vacuity (TLC must reach these)
 WitnessLoop  == "parent loop" \notin out.kinds.bzr
-WitnessCleanMove == ~(out.kinds.bzr = {} /\ Len(hist) = MaxOps /\ \E e \in out.final : e.c = "new" /\ Len(e.path) = 2)
+WitnessCleanMove == ~(out.kinds.bzr = {} /\ Len(hist) = MaxOps /\ \E e \in out.final.bzr : e.c = "new" /\ Len(e.path) = 2)
 =============================================================================
